@@ -50,6 +50,18 @@ CLAIMED['C06'] = {
           'GEN-WF. Bounded (not proved): the four heap-building decoder functions on 600 generated documents each per run.',
   'design': '3 (C06)',
 }
+CLAIMED['C19'] = {
+  'text': 'Route selection, partly proved: FilterExprPredicate.eval and FilterExprConjunction.eval are proved to compute the ordinary '
+          'boolean value of the expression on every route (absent attribute = null, = / != by value), and ApiNamespace.add_route is '
+          'proved to keep the by-name tables equal to the tables of the route list (the rebuild step of the filter). The statements of '
+          'stone.cli:main that apply -f / -w / -b / -a are extracted mechanically from the current source (slice main@select_routes) and, '
+          'as a BOUNDED stand-in, run on generated command lines against an independent reference (own expression reader with `and` over '
+          '`or`, whole-API comparison of visible routes, by-name tables, attributes, route schema, kept types, error exits).',
+  'note': 'Proved: the two eval methods and add_route (z3). Bounded, not proved: the slice of main() (ply-generated LALR parser and '
+          'the 100-line pruning code with argparse state are outside the VC generator) on 600 generated command lines per quick run. '
+          'Dropped by the extraction: everything of main() outside the two statement ranges (see evidence extraction_drops).',
+  'design': '3 (C19)',
+}
 NOT_YET = {}
 NA = {
  'C09': 'property of emitted Python source when imported; no contract on an emitting function can express the semantics of its output text',
